@@ -295,6 +295,8 @@ def cases(tier, seed):
         ("fs+cache", "cold", {"T0": [["call", "f", 2]], "T1": [["batch", "f", [0, 1, 3, 2]]]}),
         # one call made plainly and through a partial application
         ("fs", "cold", {"T0": [["call", "mid", 1]], "T1": [["par", "mid", 1]]}),
+        # two different partitions stored at the same time (the codec and its strategies are shared by all threads)
+        ("fs", "cold", {"T0": [["call", "part", 1]], "T1": [["call", "part", 2]]}),
     ]
     # a call in flight while more than a thousand other distinct calls pass through the runner; the second caller arrives
     # at the hint placed after the fan-out (whoever starts first)
@@ -304,7 +306,9 @@ def cases(tier, seed):
                     "strategy": {"kind": "hint", "at_hint": 1, "to": 0, "first": first}})
     for bi, (backend, scen, threads) in enumerate(bases):
         for first in (0, 1):
-            for at in range(1, 2600 if tier == "thorough" else 1400, 2 if (stride > 1 and bi == 5) else stride):
+            dense = threads.get("T1") == [["call", "part", 2]]      # (short windows inside one codec call, late in a long call)
+            for at in range(1, 3300 if dense else 2600 if tier == "thorough" else 1400,
+                            (3 if tier == "quick" else 1) if dense else 2 if (stride > 1 and bi == 5) else stride):
                 out.append({"seed": 7000 + bi, "backend": backend, "scenario": scen, "keymode": "sweep", "threads": threads,
                             "strategy": {"kind": "sweep", "at": at, "to": 0, "first": first}})
     # two root calls, one under context arguments, in threads that run under copies of one contextvars context
